@@ -4,7 +4,7 @@ CONSTANTS
   MaxPackets = 2
   NR = 0
   RFns <- RFnsTcp
-  Crtps <- CrtpsTcp
+  SendSets <- Send1Tcp
   MaxSends = 1
   Mode = "tcp"
   LateRegister = FALSE
